@@ -39,6 +39,7 @@ type Obl struct {
 	Canary    bool
 	GroundOnly bool // script without quantified facts (used to search for a counterexample)
 	QSuffix    int  // >0: keep only the last QSuffix quantified facts (sound weakening of the hypotheses)
+	Direct     bool // decided outside the solver (finite enumeration); Res is pre-filled
 	QOnly      int  // >0 (with QEngine): keep exactly the QOnly-th spec-level quantified fact
 	QEngine    bool // with QSuffix: always keep the engine's own array-definition axioms (copy/append/frame), count only spec quantifiers
 }
